@@ -81,9 +81,9 @@ func VH_C17_Convert() {
 	}
 	// the fallback index of S1
 	listedS1 := map[int]bool{} // which artifacts some fallback index or response lists
-	variant := vh.Choice("fallbackS1", vh.Param("VARIANTS", 9))
+	variant := vh.Choice("fallbackS1", vh.Param("VARIANTS", 10))
 	var fb []types.Descriptor
-	vh.Tag("fallbackS1", []string{"absent", "accurate", "lacks-one", "mixed-subject", "wrong-size", "wrong-artifacttype", "other-annotations", "lists-missing", "lists-non-manifest"}[variant])
+	vh.Tag("fallbackS1", []string{"absent", "accurate", "lacks-one", "mixed-subject", "wrong-size", "wrong-artifacttype", "other-annotations", "lists-missing", "lists-non-manifest", "wrong-artifacttype-of-config-typed"}[variant])
 	switch variant {
 	case 1:
 		fb = []types.Descriptor{arts[0].desc, arts[1].desc}
@@ -107,6 +107,12 @@ func VH_C17_Convert() {
 		fb = []types.Descriptor{arts[0].desc, arts[3].desc} // R4's blob does not exist
 	case 8:
 		fb = []types.Descriptor{arts[0].desc, {MediaType: types.MediaTypeOCI1Manifest, Digest: dLoose, Size: 5}}
+	case 9:
+		// R2 has no artifactType field (its type is its config media type): the entry
+		// carries another, non-empty one
+		d := arts[1].desc
+		d.ArtifactType = "application/other"
+		fb = []types.Descriptor{arts[0].desc, d}
 	}
 	for _, d := range fb {
 		for k, a := range arts {
